@@ -123,12 +123,30 @@ def publish_names(s):
     return names
 
 
+def schedule_dependent(e):
+    """a condition that reads a context variable or another task's status can legitimately come
+    out differently under another completion order"""
+    if e is None:
+        return False
+    if "ctx" in e or "ctxkey" in e or "task_status" in e:
+        return True
+    if "not" in e:
+        return schedule_dependent(e["not"])
+    if "op" in e:
+        return schedule_dependent(e["a"]) or schedule_dependent(e["b"])
+    return False
+
+
 def simple_for_twins(s):
     """outside the regions of the open findings that make whole runs order- or pause-dependent"""
     if monitors.has_count_join_below_all(s):
         return False
     for t in s["def"]["tasks"]:
+        if t.get("retry") is not None and schedule_dependent(t["retry"].get("when")):
+            return False
         for tr in t["next"]:
+            if schedule_dependent(tr["when"]):
+                return False
             if "fail" in tr["do"] and len(set(tr["do"])) > 1:
                 return False     # clean-up beside a fail command runs only if staged before the failure
             if "retry" in tr["do"]:
@@ -200,10 +218,14 @@ def mon_C09_twin(s):
             diff = "executed tasks differ with pause before completion %d" % pos
         elif a["status"] == "succeeded" and not clash and a["output"] != b["output"] and is_acyclic(s):
             diff = "output differs with pause before completion %d: %s vs %s" % (pos, a["output"], b["output"])
-        elif a["errors"] != b["errors"] and is_acyclic(s) and not clash:
+        elif a["status"] == "succeeded" and a["errors"] != b["errors"] and is_acyclic(s) and not clash:
             diff = "errors differ with pause before completion %d: %s vs %s" % (pos, a["errors"], b["errors"])
         if diff:
-            out.append(_viol(s, p, diff, "D7" if clash else None))
+            fin = "D7" if clash else None
+            st = p.replies[-1]["state"]
+            if any(r["next"] and not any(r["next"].values()) and not r["term"] for r in st["sequence"]):
+                fin = "D17"
+            out.append(_viol(s, p, diff, fin))
             break
     return out
 
